@@ -831,6 +831,8 @@ def judge(ctx, rec, res):
         fam, name = op.split(".", 1)
     else:
         fam, name = "", op
+    if fam in ("Tfq", "Tfr", "Tfq2", "Tfq6", "Tfq12", "TQ", "TR"):
+        fam = fam[1:]          # the same operation reached through the trait with a generic parameter
     if fam in ("fq", "fr", "fq2", "fq6", "fq12"):
         v = judge_field(ctx, rec, res, fam, name)
     elif fam in ("Q", "R"):
